@@ -258,6 +258,12 @@ func genUniverse(r *rand.Rand, g *grpSpec, nk int) {
 			base = b
 		}
 	}
+	if x, y, ok := collidingPair(g.Kind, r); ok && r.Intn(2) == 0 {
+		// two keys that are different but hash alike: one worker, and still two cache entries and two rows
+		base = x
+		add(x)
+		add(y)
+	}
 	add(base)
 	switch g.Kind {
 	case kInt, kInt64, kUInt64, kUInt:
